@@ -36,7 +36,7 @@ def run(tier, seed):
             x["cmp"] = "gt"
             break
     sb = vh(["replay", "rfc1982", write_ndjson(os.path.join(wd, "corrupt.ndjson"), bad)])
-    if not sb["violations"]:
+    if not sb["violations"] and not c.violations:
         raise vlib.ToolError("binding self-check failed: corrupted expectation not detected")
     c.cov["binding_selfcheck_replay"] = "corrupted cmp expectation detected"
 
@@ -54,7 +54,7 @@ def run(tier, seed):
             c.add_harness(sd, f"driven trace {i} (rejected)")
             c.violation(f"trace:{ev.get('ev') if ev else '?'}", f"Trace_Rfc1982 cannot explain line {tr.rejected_at}: {json.dumps(ev)}",
                         {"trace": tp, "line": tr.rejected_at, "event": ev})
-        if i == 0 and tr.accepted:
+        if i == 0 and tr.accepted and not c.violations:
             def mut(items):
                 for k, it in enumerate(items):
                     if it["ev"] == "cmp" and it["res"] == "lt":
